@@ -49,10 +49,14 @@ class TsvProjectIo(ProjectIoInterface):
         replace_infinfinity : bool
             Weather to replace infinity values with empty strings.
         """
+        # overwrite protection was already handled by the ``save_parameters`` call
+        # which dispatched to this plugin
         save_parameters(
             parameters,
             file_name,
             format_name="csv",
+            allow_overwrite=True,
+            update_source_path=False,
             sep="\t",
             replace_infinfinity=replace_infinfinity,
         )
